@@ -9,6 +9,8 @@ pub mod c05;
 pub mod c08;
 pub mod c09;
 pub mod c14;
+pub mod c19;
+pub mod c20;
 
 pub fn dispatch(prop: &str, tier: Tier, replay: Option<String>) -> i32 {
     match prop {
@@ -21,6 +23,8 @@ pub fn dispatch(prop: &str, tier: Tier, replay: Option<String>) -> i32 {
         #[cfg(not(feature = "xen"))]
         "C08" => c08::run(tier, replay),
         "C09" => c09::run(tier, replay),
+        "C19" => c19::run(tier, replay),
+        "C20" => c20::run(tier, replay),
         "C14" => c14::run(tier, replay),
         _ => {
             eprintln!("MACHINERY: unknown or unsupported property {} in this build", prop);
